@@ -540,7 +540,7 @@ func runC20(o *Out, rng *Rng, tier string, replay string) {
 	// replayed by Run/RunProtocol.v: results compared with the model AND every operation decided against
 	// the discipline of the whole-history theorem (per traveller, on the model's state before it)
 	o.FlushCases("C20", protoRequires, "list (list eop)", "ep_mismatches 0%nat", 16)
-	o.sum.Notes = append(o.sum.Notes, "every operation of every protocol history is decided inside Coq against the discipline of C20_engine_history_every_checkin_accepted (conformsb on the model's state before the operation, one clock per traveller); an empty mismatch list means every generated history is conforming, i.e. the whole-history theorem applies to each of them (up to the sanity of the predictor's answers, pred_ok, which is not decidable)")
+	o.sum.Notes = append(o.sum.Notes, "every operation of every protocol history is decided inside Coq against the discipline of C20_engine_history_every_checkin_accepted (conformsb on the model's state before the operation, one clock per traveller); an empty mismatch list means every generated history is conforming, i.e. the whole-history theorem applies to each of them (the discipline is fully decidable: the clause about the predictor is 'every accepted proposal has positive clearance dates', checked on the model's proposal)")
 	simBase := filepath.Join(o.dir, "sims")
 	type job struct{ sp *simSpec }
 	var specs []*simSpec
